@@ -371,7 +371,7 @@ class ObtainSimpleGraph(ObtainGraphAction):
         try:
             G = make_graph_from_spec('simple', values)
             setattr(args, self.dest, G)
-        except ValueError as e:
+        except (ValueError, OverflowError) as e:
             parser.error(str(e))
         except OSError as e:
             parser.error(str(e))
@@ -388,7 +388,7 @@ class ObtainBipartiteGraph(ObtainGraphAction):
         try:
             B = make_graph_from_spec('bipartite', values)
             setattr(args, self.dest, B)
-        except ValueError as e:
+        except (ValueError, OverflowError) as e:
             parser.error(str(e))
         except OSError as e:
             parser.error(str(e))
@@ -405,7 +405,7 @@ class ObtainDirectedAcyclicGraph(ObtainGraphAction):
         try:
             D = make_graph_from_spec('dag', values)
             setattr(args, self.dest, D)
-        except ValueError as e:
+        except (ValueError, OverflowError) as e:
             parser.error(str(e))
         except OSError as e:
             parser.error(str(e))
